@@ -2,6 +2,7 @@ package checks
 
 import (
 	"fmt"
+	"math"
 	"reflect"
 	"strings"
 
@@ -207,7 +208,59 @@ func init() {
 
 var c06VM = &vm.VM{}
 
+// c06Bounds: range bounds that are not representable as int (a uint64 above
+// MaxInt64, a float beyond the int domain held by a dynamic member). The
+// number of elements such a range needs is known without building it.
+func c06Bounds(c *runner.Ctx) {
+	type tc struct {
+		src        string
+		mustRefuse bool // needs more elements than any budget
+		empty      bool // end precedes start: creates nothing, must not be refused
+	}
+	cases := []tc{
+		{"0..U64", true, false}, {"len(0..U64)", true, false}, {"A..U64", true, false}, {"[1, 2, 0..U64]", true, false},
+		{"U64..5", false, true}, {"len(U64..5)", false, true}, {"U64..A", false, true},
+		{"0..AnyF", true, false}, {"AnyF..0", false, true}, {"0..AnyInf", true, false}, {"AnyNegInf..0", true, false}, {"0..AnyNegInf", false, true},
+		{"0..U", true, false}, {"U..3", false, true},
+	}
+	save := vm.MemoryBudget
+	defer func() { vm.MemoryBudget = save }()
+	for _, budget := range []int{10, 1000, defaultBudget} {
+		vm.MemoryBudget = budget
+		for _, k := range cases {
+			c.Begin(fmt.Sprintf("bounds: %s budget=%d", k.src, budget))
+			e := envs.New(&envs.Log{})
+			envs.Fill(e, 3, runner.NewRng(5))
+			e.U64, e.U, e.A = 1<<63+5, 1<<63+9, 2
+			env := envs.AsMap(e)
+			env["AnyF"], env["AnyInf"], env["AnyNegInf"] = 1e19, math.Inf(1), math.Inf(-1)
+			p, co := SafeCompile(k.src, expr.Env(env))
+			c.Eval(1)
+			if co.Failed() {
+				c.Count("bound_cases_rejected", 1)
+				continue
+			}
+			o := SafeRun(p, env)
+			c.Eval(1)
+			c.Count("bound_cases", 1)
+			cas := map[string]interface{}{"source": k.src, "budget": budget, "U64": "1<<63+5", "AnyF": 1e19, "real": o.String()}
+			budgetErr := o.Err != nil && strings.Contains(o.Err.Error(), "memory budget exceeded")
+			switch {
+			case o.Panic != nil:
+				c.Violate("run-panic", fmt.Sprint(o.Panic), cas)
+			case k.mustRefuse && o.Err == nil:
+				c.Violate("over-budget-run-completed:bound-outside-int", "a range that needs more than 2^63 elements completed: "+o.String(), cas)
+			case k.empty && budgetErr:
+				c.Violate("refused-below-budget:bound-outside-int", "a range whose end precedes its start was refused for budget reasons", cas)
+			}
+		}
+	}
+}
+
 func c06Case(c *runner.Ctx, idx uint64) {
+	if idx == 0 {
+		c06Bounds(c)
+	}
 	r := c.R
 	g := term.NewGen(r, false)
 	g.NoElvis = true
